@@ -61,6 +61,15 @@ def schedules(rng, data: bytes, frames) -> list:
 
 
 def parse_from(integ: str, entry: str, inp):
+    if entry == "plugin":
+        # the rdflib plugin entry point: Dataset.parse(source=<file object>, format="jelly")
+        import rdflib
+        try:
+            store = rdflib.Dataset(default_union=False)
+            store.parse(source=inp, format="jelly")
+            return sorted(T.norm_events([("stmt", x) for x in T.rdflib_store_statements(store)]), key=repr), None
+        except Exception as e:  # noqa: BLE001
+            return None, e
     if entry == "flat":
         evs, exc = pj.run_flat_collect(integ, inp)
         return T.norm_events(evs), exc
@@ -134,6 +143,12 @@ def run_source(kind: str, data: bytes, sched, integ: str, entry: str, tmpdir: st
         with io.BufferedReader(io.FileIO(p, "rb"), buffer_size=bufsize) as f:
             f.read(len(pre))
             r = parse_from(integ, entry, f)
+    elif kind == "gzip-over-nonseekable":
+        # gzip.open(sys.stdin.buffer) / GzipFile over a socket file: the GzipFile says seekable(), its transport is not
+        comp = gzip.compress(data)
+        raw = sources.DribbleRaw(comp, sched)
+        with gzip.GzipFile(fileobj=io.BufferedReader(raw), mode="rb") as f:
+            r = parse_from(integ, entry, f)
     elif kind == "dribble-raw":
         raw = sources.DribbleRaw(data, sched)
         r = parse_from(integ, entry, raw)
@@ -186,7 +201,7 @@ def run_source(kind: str, data: bytes, sched, integ: str, entry: str, tmpdir: st
     return r[0], r[1], log
 
 
-KINDS = ["seekable-dribble-buffered", "gzip-over-seekable-dribble", "buffered-tail1-of-16", "buffered-tail2-of-16",
+KINDS = ["gzip-over-nonseekable", "seekable-dribble-buffered", "gzip-over-seekable-dribble", "buffered-tail1-of-16", "buffered-tail2-of-16",
          "buffered-tail1-of-8192", "buffered-tail2-of-8192", "file", "file-raw-buffered", "bytesio-offset", "file-offset", "gzip", "gzip-file", "bz2-file", "lzma-file", "dribble-raw", "dribble-buffered", "pipe-raw", "pipe-buffered",
          "socket-raw", "socket-buffered", "socket-timeout-raw-fd", "pipe-raw-fd"]
 
@@ -207,10 +222,10 @@ def nontrivial(log, data: bytes, frames) -> bool:
     return any(c not in bounds and c < len(data) for c in cuts)
 
 
-def big_stream(rng):
+def big_stream(rng, mebibyte: bool = False):
     from .. import wire
 
-    n = rng.randint(250, 400)
+    n = rng.randint(250, 400) if not mebibyte else 2700
     stmts = [(("iri", f"http://ex.org/s{k % 50}"), ("iri", "http://ex.org/p"),
               ("lit", ("x%d-" % k) * rng.randint(60, 90), None, None)) for k in range(n)]
     delimited = rng.random() < 0.5
@@ -228,7 +243,11 @@ def run_shard(ctx):
         while not ctx.out_of_time():
             rng = ctx.rng(i)
             i += 1
-            if i % 40 == 1:
+            if i == 2 and ctx.shard == 0:
+                vs = big_stream(rng, mebibyte=True)    # > 1 MiB, once per run
+                vs["mode"] = "rdf11"
+                ctx.observe("big-streams(>1MiB)")
+            elif i % 40 == 1:
                 vs = big_stream(rng)          # > 64 KiB: read sizes that no small stream can expose
                 ctx.observe("big-streams(>64KiB)")
             elif i % 8 == 3:
@@ -251,7 +270,9 @@ def run_shard(ctx):
             # rdflib entry points only for RDF 1.1 content (pyjelly-written generic-mode streams may hold RDF-star)
             rdf11 = vs.get("mode") == "rdf11" or vs["producer"] == "crafted-header"
             integ = "rdflib" if rdf11 and rng.random() < .5 else "generic"
-            entry = rng.choice(["flat", "flat", "grouped", "to_graph"])
+            entry = rng.choice(["flat", "flat", "grouped", "to_graph"] + (["plugin", "plugin"] if integ == "rdflib" else []))
+            if i == 2 and ctx.shard == 0:
+                integ, entry = "rdflib", "plugin"
             base, exc = parse_from(integ, entry, io.BytesIO(data))
             if exc is not None or (entry == "flat" and base != T.norm_events(vs["events"])):
                 # the in-memory buffer is itself one of the sources the property names
@@ -269,6 +290,9 @@ def run_shard(ctx):
                 scheds = [(n, sc) for n, sc in scheds if n in ("1-1-k", "2-k", "1-k", "random-big")] + \
                     [("all-4096", [4096]), ("all-65536", [65536])]
             kinds = list(KINDS)
+            if len(data) > 1_000_000:
+                kinds = ["gzip-over-nonseekable", "gzip", "gzip-file", "file", "dribble-buffered", "pipe-buffered", "seekable-dribble-buffered"]
+                scheds = [(n, sc) for n, sc in scheds if n in ("2-k", "all-65536")]
             for kind in kinds:
                 these = scheds if kind.startswith(("dribble", "seekable-dribble")) else [rng.choice(scheds)]
                 if not kind.startswith(("dribble", "pipe", "socket", "seekable-dribble", "gzip-over")):
